@@ -583,6 +583,18 @@ Proof.
 Qed.
 
 (** ---- table-driven obligations over the generated census of engine.rs ---- *)
+(** the tracker's fields are written where the model writes them and nowhere else: the per-key
+    counters and the shard counter by mark_key_modified only (so ending a watch cannot lower or
+    forget a counter another watcher compares against), the watcher count by one increment in
+    register_watch and one decrement in unregister_watch *)
+Lemma tracker_writers_ok :
+  watch_key_counter_writers = [bs "mark_key_modified"] /\
+  watch_global_counter_writers = [bs "mark_key_modified"] /\
+  watch_active_writes = [(bs "register_watch", bs "fetch_add"); (bs "unregister_watch", bs "fetch_sub")].
+Proof. repeat split; vm_compute; reflexivity. Qed.
+(** ... in the model: unregistering leaves every counter alone *)
+Lemma unregister_keeps_counters t k k' : counter_of (unregister_watch t k) k' = counter_of t k'.
+Proof. reflexivity. Qed.
 Definition census_marks (f : bytes) : Z :=
   match find (fun r => match r with (n, _, _, _, _) => beq n f end) engine_census with
   | Some (_, m, _, _, _) => m
